@@ -332,6 +332,13 @@ def replay(ctx, case):
     for t in pool:
       extra += permutations_of(t)
     law_pairs(ctx, pool + extra, {"kind": "law", "text": text})
+  elif case.get("kind") == "program":
+    from pytype.pytd import serialize_ast
+    from vlib import an
+    r = an.infer(case["src"], module_name="m")
+    roundtrip(ctx, lambda: serialize_ast.PrepareForExport(
+        "m", r.ast, r.ret.context.loader), "program", "P:" + case["src"],
+              case, True)
   elif case.get("kind") == "law-fixed":
     part_fixed_law(ctx)
   elif case.get("kind") == "bundled":
